@@ -43,6 +43,23 @@ class FailingWriter:
         return bytes(self.buf)
 
 
+def _children():
+    """pids of live (non-zombie) children of this process"""
+    out = []
+    try:
+        for t in os.listdir("/proc/self/task"):
+            for pid_ in open(f"/proc/self/task/{t}/children").read().split():
+                try:
+                    st_ = open(f"/proc/{pid_}/stat").read().rsplit(")", 1)[1].split()[0]
+                except OSError:
+                    continue
+                if st_ != "Z":
+                    out.append(pid_)
+    except OSError:
+        pass
+    return out
+
+
 def nfds():
     return len(os.listdir("/proc/self/fd"))
 
@@ -66,12 +83,17 @@ def run(ctx):
         trees.standard(tree, hostile_content=False)
         trees.add_full_list_content(tree)
         os.chmod(tree.path("hello.pyg"), 0o644)
+        import gzip
+        tree.write("big.txt.gz", gzip.compress((b"a line of a large compressed document 0123456789\n" * 22000), mtime=0))      # ~1 MB decompressed
         cfgs = {"shipped": pyg.make_config(tree.root, **{"handlers.dir.DirHandler|cachetime": "0"}),
+                "fullz": pyg.make_config(tree.root, pyg.FULL_HANDLERS, **{"handlers.dir.DirHandler|cachetime": "0", "handlers.ZIP.ZIPHandler|enabled": "true",
+                                                                          "handlers.file.CompressedFileHandler|decompressors": "{'gzip': 'zcat'}"}),
                 "full": pyg.make_config(tree.root, pyg.FULL_HANDLERS, **{"handlers.dir.DirHandler|cachetime": "0", "handlers.ZIP.ZIPHandler|enabled": "true"})}
         kinds = [("document", "/README", "shipped", True), ("bigdoc", "/data.bin", "shipped", True), ("menu", "/docs", "shipped", False),
                  ("gophermap", "/map", "shipped", True), ("notfound", "/no-such-thing", "shipped", False), ("mboxfolder", "/mail/box.mbox", "shipped", False),
                  ("mboxmsg", "/mail/box.mbox|/MBOX-MESSAGE/1", "shipped", False), ("html", "/page.html", "shipped", True),
-                 ("zipmember", "/arch.zip/inside.txt", "full", False), ("zipdir", "/arch.zip/zd", "full", False)]
+                 ("zipmember", "/arch.zip/inside.txt", "full", False), ("zipdir", "/arch.zip/zd", "full", False),
+                 ("gzdoc", "/big.txt.gz", "fullz", True)]
         protos = ["gopher", "gopherp", "http", "wap", "gemini", "spartan", "sgopher", "https", "sgopherp"]
         for kind, sel, cname, with_file in kinds:
             cfg = cfgs[cname]
@@ -121,6 +143,15 @@ def run(ctx):
                                 for ln in r.log:
                                     if "EXCEPTION " + cn in ln and not ln.startswith("10.77.77.77 "):
                                         res.violation("C20:no-address", "failure logged without the client's address", inp, observed=ln[:80], required="10.77.77.77 ...", replay=rp)
+                                kids_left = _children()
+                                if kids_left:
+                                    res.violation("C20:child-left", "a process started for the request is still running after the connection failed", inp,
+                                                  observed=kids_left, required="none", replay=rp)
+                                    for pid_ in kids_left:
+                                        try:
+                                            os.kill(int(pid_), 9)
+                                        except (OSError, ValueError):
+                                            pass
                                 if f1 > f0:
                                     res.violation("C20:fd-leak", "a file opened for the request is not closed after the connection failed", inp,
                                                   observed={"before": f0, "after": f1}, required="equal", replay=rp)
